@@ -118,6 +118,40 @@ Proof.
     inversion E; subst. cbn [take_out snd k_H]. eapply OrdH_same; [|exact E2]. reflexivity.
 Qed.
 
+(* ---------- one layer of quiescence at the core: what run_task leaves behind ---------- *)
+(* QueuingExecutor::run_task on the task hosting top-level command cid: it forwards the command's effects and events
+   until Stream::poll_next answers Pending (or the command is finished and its slot is freed).  If the slot still
+   hosts cid afterwards, then cid has no output left, its own ready and spawn queues are empty (unless it has been
+   aborted: then its tasks are gone), and its AtomicWaker cell holds the executor task's waker OR the executor task is
+   already in the executor's ready queue again: whatever happens to the command later finds the executor subscribed
+   (a wake of the cell's waker queues the task: Chain.wake_reaches_executor) or about to look.  One layer of "a call
+   runs to quiescence and no wake-up is lost".  For every state satisfying the order invariant. *)
+Lemma xget_xremove q s : xget q (xremove q s) = None.
+Proof. unfold xget, xremove. cbn [fst]. rewrite Tables.getd_updd_same. reflexivity. Qed.
+
+Theorem xrun_task_leaves_command_quiet_and_subscribed : forall FUEL' fuel q k k' cid,
+  OrdH (k_H k) -> xget q (k_slab k) = Some cid -> cid < length (cmds (k_H k)) ->
+  xrun_task (S FUEL') fuel q k = Some k' -> xget q (k_slab k') = Some cid ->
+  c_evs (gcmd cid (k_H k')) = [] /\ c_eff (gcmd cid (k_H k')) = [] /\
+  (was_aborted cid (k_H k') = false -> c_ready (gcmd cid (k_H k')) = [] /\ c_spawnq (gcmd cid (k_H k')) = []) /\
+  (c_atomic (gcmd cid (k_H k')) = Some (WExec q) \/ In q (xready (k_H k'))) /\ OrdH (k_H k').
+Proof.
+  intros FUEL'. induction fuel as [|f IH]; intros q k k' cid O G L E G'; [discriminate|]. cbn [xrun_task] in E.
+  rewrite G in E.
+  destruct (poll_next (S FUEL') cid (WExec q) (k_H k)) as [[r H1]|] eqn:EP; [|discriminate].
+  pose proof (OrdH_poll_next (S FUEL') cid (WExec q) (k_H k) r H1 I EP O) as O1.
+  assert (L1 : cid < length (cmds H1)).
+  { pose proof (Perm.pm_cmds _ _ (Perm.perm_poll_next (S FUEL') cid (WExec q) (k_H k) r H1 EP)). lia. }
+  destruct r as [| |e|e].
+  - inversion E; subst. cbn [setH k_H].
+    exact (poll_next_pending_quiet_and_subscribed_any FUEL' cid (WExec q) (k_H k) H1 O I L EP).
+  - (* finished: the slot is freed *)
+    inversion E; subst. cbn [k_slab] in G'. rewrite xget_xremove in G'. discriminate.
+  - (* an effect: handed to the request channel, poll again *)
+    eapply (IH q _ k' cid); [| | |exact E|exact G']; cbn [k_H k_slab]; [eapply OrdH_same; [|exact O1]; reflexivity | exact G | exact L1].
+  - eapply (IH q _ k' cid); [| | |exact E|exact G']; cbn [k_H k_slab]; [exact O1 | exact G | exact L1].
+Qed.
+
 (* every state of every run of an app under a Core satisfies the order invariant *)
 Inductive creach (hs : handlers) : core -> core -> Prop :=
 | cr_refl k : creach hs k k
